@@ -96,6 +96,8 @@ def case_c13(bindir, seed, index, tier, extra):
 def replay_harness(bindir, rp):
     inner = rp.get("replay") or {}
     payload = inner.get("params") if "params" in inner else inner
+    if isinstance(payload, dict) and "layout" in inner:
+        payload = dict(payload, layout=inner["layout"])   # (package / cache-directory spelling variant of the scenario)
     res = run_harness(bindir, rp["binary"], rp["test"], rp["mode"], rp["scenario_seed"], rp["scenario_index"], 1, rp.get("tier", "quick"), replay=payload)
     out = []
     for r in res:
